@@ -390,13 +390,34 @@ pub fn make_volume(vol: &Value) -> Result<Image, String> {
     };
     if let Some(patches) = vol.get("patch").and_then(Value::as_array) {
         for p in patches {
-            let off = p[0].as_u64().unwrap_or(0);
-            let bytes: Vec<u8> = p[1].as_array().map(|a| a.iter().map(|x| x.as_u64().unwrap_or(0) as u8).collect()).unwrap_or_default();
-            img.write_at(off, &bytes);
+            apply_patch(&mut img, p);
         }
     }
     BASE_CACHE.with(|c| c.borrow_mut().insert(key, img.clone()));
     Ok(img)
+}
+
+/// one modification of an unmounted image by "someone else": `[offset, [bytes]]`, or `{"fat1_and": mask}` = the shutdown / error bits
+/// other implementations keep in table entry 1 (FAT16: bits 15, 14; FAT32: bits 27, 26), cleared in every copy
+fn apply_patch(img: &mut Image, p: &Value) {
+    if let Some(mask) = p.get("fat1_and").and_then(Value::as_u64) {
+        if let Some(g) = Geo::parse(img) {
+            for k in 0..g.nfats {
+                let base = (g.rsvd + k * g.spf) * g.bps;
+                if g.ft == 32 {
+                    let v = img.u32_at(base + 4) & (mask as u32);
+                    img.write_at(base + 4, &v.to_le_bytes());
+                } else if g.ft == 16 {
+                    let v = img.u16_at(base + 2) & (mask as u16);
+                    img.write_at(base + 2, &v.to_le_bytes());
+                }
+            }
+        }
+        return;
+    }
+    let off = p[0].as_u64().unwrap_or(0);
+    let bytes: Vec<u8> = p[1].as_array().map(|a| a.iter().map(|x| x.as_u64().unwrap_or(0) as u8).collect()).unwrap_or_default();
+    img.write_at(off, &bytes);
 }
 
 // ------------------------------------------------------------------------------------------------
@@ -1187,26 +1208,7 @@ pub fn run_program(prog: &Value, w: &mut dyn std::io::Write) -> u64 {
             {
                 let mut d = dev.0.borrow_mut();
                 for p in pokes {
-                    if let Some(mask) = p.get("fat1_and").and_then(Value::as_u64) {
-                        // the shutdown / error bits other implementations keep in table entry 1 (FAT16: bits 15, 14; FAT32: bits 27, 26),
-                        // cleared in every copy
-                        if let Some(g) = Geo::parse(&d.img) {
-                            for k in 0..g.nfats {
-                                let base = (g.rsvd + k * g.spf) * g.bps;
-                                if g.ft == 32 {
-                                    let v = d.img.u32_at(base + 4) & (mask as u32);
-                                    d.img.write_at(base + 4, &v.to_le_bytes());
-                                } else if g.ft == 16 {
-                                    let v = d.img.u16_at(base + 2) & (mask as u16);
-                                    d.img.write_at(base + 2, &v.to_le_bytes());
-                                }
-                            }
-                        }
-                        continue;
-                    }
-                    let off = p[0].as_u64().unwrap_or(0);
-                    let bytes: Vec<u8> = p[1].as_array().map(|a| a.iter().map(|x| x.as_u64().unwrap_or(0) as u8).collect()).unwrap_or_default();
-                    d.img.write_at(off, &bytes);
+                    apply_patch(&mut d.img, p);
                 }
             }
             let mut ev = Map::new();
